@@ -219,7 +219,7 @@ def run_job(job, seed, tier, workdir, log):
     if total and total < W * 4:
         W = max(1, total // 4) or 1
     res = dict(evaluations=0, outcomes={}, counters={}, samples=[], setfiles={}, violations=[], inconclusive=[],
-               sanitizer_reports=0, capped=False, internal_violations=0)
+               sanitizer_reports=0, capped=False, internal_violations=0, records=[])
     tiern = 1 if tier == 'thorough' else 0
     os.makedirs(workdir, exist_ok=True)
     active = {}
@@ -253,7 +253,9 @@ def run_job(job, seed, tier, workdir, log):
                     d = json.loads(line)
                 except Exception:
                     continue
-                if d.get('t') == 'viol':
+                if d.get('t') == 'rec':
+                    res['records'].append(d)
+                elif d.get('t') == 'viol':
                     d.update(job.ident())
                     res['violations'].append(d)
                 elif d.get('t') == 'summary':
